@@ -338,8 +338,8 @@ pub fn real_sub(tier: Tier) -> Sub {
   sub.rule = "case = one real-time execution per (situation x socket pair x RECONNECT_IVL) cell on loopback tcp / ipc; non-trivial = the cell was not skipped; oracle: close() and term() return within 5 s (term's own straggler timeout is 10 s), zero actors registered afterwards, the tcp port / ipc path can be bound again, no connection attempt arrives after term(), a blocked recv() is released".into();
   let list = cells(tier);
   sub.bounds = json!({"cells": list.len()});
-  sub.notes.push("E4 cells are real-clock executions: the matrix is enumerated completely, the schedules inside a cell are not".into());
-  par::enumerate(&mut sub, list.len(), |i| {
+  sub.notes.push("a violation in a real-clock cell is reported only if it shows again when the cell is executed a second time; E4 cells are real-clock executions: the matrix is enumerated completely, the schedules inside a cell are not".into());
+  par::enumerate(&mut sub, list.len(), |i| par::confirmed(|| {
     let c = list[i];
     let rt = tokio::runtime::Builder::new_multi_thread().worker_threads(2).enable_all().build().expect("runtime");
     let out = rt.block_on(async move { tokio::time::timeout(Duration::from_secs(120), run_cell(c)).await });
@@ -360,7 +360,7 @@ pub fn real_sub(tier: Tier) -> Sub {
       }
     }
     case
-  });
+  }));
   sub
 }
 
